@@ -134,3 +134,16 @@ CHECKS["C11"] = {
         {"pkg": MUX, "run": "^$", "tiers": ["thorough"], "fuzz": {"target": "^FuzzVerifRecvData$", "seconds": {"quick": 0, "thorough": 150}}},
     ],
 }
+
+CHECKS["C20"] = {
+    "level": "exploration",
+    "technique": "rapid-generated option presence masks and values rendered both as JSON file and as key=value; string (with the \\= escapes of plugin hosts); oracle = table transcribed from README.md + cross-syntax equality; random strings for the no-crash part",
+    "level_text": "Each generated configuration is parsed through both front ends (results must be equal) and processed; every documented option (NumConn<=0, KeepAlive seconds, StreamTimeout default, Transport/BrowserSig selection observed through the transport actually created, CDN url, AlternativeNames filtering, encryption names) is compared with an independent transcription of the README; incomplete/invalid configurations must yield an error, arbitrary strings must not panic.",
+    "level_note": "The README transcription in harness/internal__client/c20_test.go (c20Table) is the trusted oracle; values containing ';', '\"' or '\\\\' are outside the option-string domain (the front end has no escaping for them once unescaped) and are not generated.",
+    "rule": "rapid draws presence (p=0.4..0.95 per option) and representative values for the 19 options incl. NumConn in {-7,-1,0,1,2,4,8}, KeepAlive in {-5,0,1,15,30,3600}, mixed-case names, base64 keys with '=' padding, empty alternative names; every case is non-trivial (both syntaxes + processing); distinct = distinct (presence mask, escaping) pairs.",
+    "assumptions": ["README.md client section is the specification"],
+    "jobs": [
+        {"pkg": CLIENT, "run": "^TestVerif_C20_Config$", "checks": {"quick": 6000, "thorough": 600000}, "shards": {"thorough": 16}},
+        {"pkg": CLIENT, "run": "^TestVerif_C20_NoCrash$", "checks": {"quick": 3000, "thorough": 300000}, "shards": {"thorough": 8}},
+    ],
+}
